@@ -18,12 +18,14 @@ import (
 	"time"
 
 	"github.com/emitter-io/emitter/internal/security"
+	"github.com/emitter-io/emitter/internal/verifx/engine/authconc"
 	"github.com/emitter-io/emitter/internal/verifx/engine/brokerx"
 	"github.com/emitter-io/emitter/internal/verifx/engine/core"
+	"github.com/emitter-io/emitter/internal/verifx/engine/sched"
 )
 
 func init() {
-	core.Register(&core.Check{ID: "C12", Level: "exploration", Run: run, Replay: replay})
+	core.Register(&core.Check{ID: "C12", Level: "exploration", Run: run, Replay: replay, Worker: schedWorker})
 }
 
 const alphabet = "ABCDEFGHIJKLMNOPQRSTUVWXYZabcdefghijklmnopqrstuvwxyz0123456789-_"
@@ -743,6 +745,13 @@ func run(c *core.Ctx) {
 	c.Set("bit_pairs_violating_only_through_a_single_flip", implied)
 	c.Set("distinct_nontrivial", nontrivial)
 	c.Set("rule", "a case is one (license version, issued key, edit) mutant evaluated through the real Authorize over the probe channels x 6 operations plus the real keygen.CreateKey; it is non-trivial when the mutant string still decrypts and validates, i.e. is granted at least one (channel, operation); distinct = distinct mutant strings per issued key")
+	schedBound := 1
+	if !c.Quick() {
+		schedBound = 2
+	}
+	c.Set("sched_bound_completed", sched.Drive(c, concAltered, schedBound))
+	c.Set("sched_schedules", c.Count("schedules"))
+	c.Assume("interleaving part: an altered key and a valid more powerful key judged at the same time (channel parsing, keygen.DecryptKey, contract fields, target, permission), statement-level interleavings with <= 1 (quick) / 2 (thorough) preemptions")
 	c.Set("issued_keys_per_license", len(w.specsA))
 	c.Set("probe_channels", len(probes))
 	c.Set("violating_mutants_by_signature", sigCount)
@@ -756,7 +765,21 @@ func run(c *core.Ctx) {
 
 // ---- replay --------------------------------------------------------------------------------
 
+// schedWorker: the interleaving part (an altered key judged while a valid, more powerful key of the same channel is
+// being judged: it must be refused exactly as when it is judged alone) runs in workers of the instrumented binary;
+// the scenarios are shared with C03 (engine/authconc).
+func schedWorker(c *core.Ctx, args []string) {
+	if len(args) > 0 && args[0] == "sched" {
+		sched.WorkerMain(c, authconc.Scenarios(), args[1:])
+	}
+}
+
+var concAltered = []string{"authorize-v1-altered-vs-powerful", "authorize-v2-altered-vs-powerful", "authorize-v3-altered-vs-powerful"}
+
 func replay(c *core.Ctx, raw json.RawMessage) {
+	if sched.ReplayCase(c, authconc.Scenarios(), raw) {
+		return
+	}
 	var mc mutCase
 	if err := json.Unmarshal(raw, &mc); err != nil {
 		core.HarnessFailure("C12 replay: %v", err)
